@@ -340,7 +340,12 @@ class SymBool:
         self.t = t
 
     def __bool__(self):
-        return engine().branch(self.t)
+        t = z3.simplify(self.t)
+        if z3.is_true(t):
+            return True
+        if z3.is_false(t):
+            return False
+        return engine().branch(t)
 
     def __invert__(self):
         return SymBool(z3.Not(self.t))
